@@ -35,6 +35,9 @@ type drvState struct {
 	lrGraph    *lrGraph
 	windowErr  []string
 	windowChecked int
+	lrDone     bool
+	lrOK       bool
+	lrDetail   string
 }
 
 func newDrvEngine(w *World, name string, props []string) (*scanEngine, error) {
@@ -925,6 +928,12 @@ func debugDrv(args []string) int {
 		fmt.Println("table lr-depth", ok, d)
 		ok2, d2 := dv.acceptLemma()
 		fmt.Println("table accept-via-rule-1", ok2, d2)
+		if gp, err := loadGramParser(w, name); err == nil {
+			ok3, d3 := dv.symbolsOnStackLemma(gp)
+			fmt.Println("table symbols-on-stack", ok3, d3)
+		} else {
+			fmt.Println("table symbols-on-stack: cannot load grammar:", err)
+		}
 	}
 	if os.Getenv("VC_DRV_TABLES") != "" {
 		return 0
